@@ -573,9 +573,13 @@ class KmipEngine(object):
             if self._attribute_policy.is_attribute_multivalued(name):
                 values = attributes.get(name, list())
                 if (not attribute.attribute_index) and len(values) > 0:
-                    raise exceptions.InvalidField(
-                        "Attribute index missing from multivalued attribute."
-                    )
+                    # KMIP 2.0 encodes attributes without an index; several
+                    # instances of a multivalued attribute are simply listed.
+                    if self._protocol_version < contents.ProtocolVersion(2, 0):
+                        raise exceptions.InvalidField(
+                            "Attribute index missing from multivalued "
+                            "attribute."
+                        )
 
                 values.append(attribute.attribute_value)
                 attributes.update([(name, values)])
